@@ -9,10 +9,17 @@ LEVEL = "model_checking"
 
 
 def configs(c):
+    # every rung of the compile-time (no-std) selection ladder is a configuration of its own: sse2, +ssse3, +sse4.1, +avx, +avx2
     cf = [("std-rel", f) for f in range(0, 6)] + [("nosimd-rel", 0), ("nostd-sse2", 0), ("nostd-avx2", 0), ("std-dbg", 1), ("std-dbg", 0)]
     if c.thorough:
         cf += [("std-dbg", 5), ("nosimd-dbg", 0), ("nostd-ssse3", 0), ("nostd-sse41", 0), ("nostd-avx", 0)]
     return cf
+
+
+def rung_configs(c):
+    """the middle rungs of the no-std ladder; in the quick tier they run the selection record, the vector operations and the
+    ChaCha keystream events only (thorough: everything, through configs())"""
+    return [] if c.thorough else [("nostd-ssse3", 0), ("nostd-sse41", 0), ("nostd-avx", 0)]
 
 
 DRIVERS = [  # (name, harness args, trace module, kind)
@@ -117,6 +124,10 @@ def run(c):
         if v["violated"]:
             raise vlib.ToolError("%s no longer reproduces the published vectors" % vec)
     total, machs = cross_validate(c, configs(c), DRIVERS)
+    if rung_configs(c):
+        t2, m2 = cross_validate(c, rung_configs(c), [d for d in DRIVERS if d[0] in ("chacha-stream", "simd")], label="C03 ladder rungs")
+        total += t2
+        machs += m2
     # which Machine ran: against Dispatch.tla
     trace = os.path.join(wd, "c03-mach.ndjson")
     uniq = list({json.dumps({k: v for k, v in e.items() if k != "cfg"}, sort_keys=True): e for e in machs}.values())
